@@ -14,7 +14,8 @@ CHECKS = {
         "Hypothesis property tests with generated random draws + exhaustive attempt sweep; exact-rational envelope oracle",
         "Generated-input search over strategy parameters, attempt numbers up to 1e6 and the random draw itself, against an "
         "envelope oracle computed in exact rational arithmetic; attempt numbers 1..N swept exhaustively for fixed parameter "
-        "pairs; adaptive() driven by generated histories with boundary ages. Finds counterexamples, does not prove absence.",
+        "pairs; adaptive() driven by generated histories with boundary ages, and shared by two threads under the owned "
+        "scheduler. Finds counterexamples, does not prove absence.",
         "random draws are assumed to reach the strategies through random.uniform/random.random; 1e-12 relative slack on the envelope",
         "DESIGN.md §3 C18",
     ),
@@ -28,10 +29,10 @@ E1_NOTE = ("time advances only inside the scripted operation and the sleeper (vi
            "`import redress`); timings on the exact k/64 s grid; attempt_timeout_s is not exercised")
 CHECKS.update({
     "C01": _std("exploration", "Hypothesis-generated cases + exhaustive small-scope enumeration; counting invariants and fresh-object differential on the trace",
-        "Generated (config x outcome script x call sequence x 12 entry points) plus complete enumeration of all outcome scripts over a 9-letter alphabet up to length 3 (quick) / 4 (thorough) with every small cap combination; counting invariants need no model, the reused-object check is a differential against a fresh object.",
+        "Generated (config x outcome script x call sequence x 26 entry points incl. from_config, context managers, @retry) plus complete enumeration of all outcome scripts over a 9-letter alphabet up to length 3 (quick) / 4 (thorough) with every small cap combination; long runs (33..130 attempts, caps around 32/64); calls overlapping on one thread (nested in the operation, interleaved coroutines); attribute edits between calls. Counting invariants need no model; reused-object, overlapping-call and reconfiguration checks are differentials against a fresh object.",
         E1_NOTE, "DESIGN.md §3 C01"),
     "C02": _std("exploration", "Hypothesis-generated timings on an exact dyadic grid + off-grid float stream; timing inequalities and wall-clock-jump metamorphic relation",
-        "Generated deadlines, attempt durations, sleeper overshoots (placed at deadline +/- 2 ticks on purpose), strategy outputs and wall-clock jump patterns; oracle is a set of inequalities on the virtual monotonic clock compared exactly, plus trace equality with/without jumps.",
+        "Generated deadlines, attempt durations, sleeper overshoots and early returns (placed at deadline +/- 2 ticks on purpose), time spent inside the classifier, strategy outputs and wall-clock jump patterns; oracle is a set of inequalities on the virtual monotonic clock compared exactly, plus trace equality with/without jumps, plus a fresh-object differential after the caller assigns a new deadline between calls.",
         E1_NOTE + "; off-grid stream uses a 2 us tolerance", "DESIGN.md §3 C02"),
     "C03": _std("exploration", "Hypothesis-generated cases checked against a spec-level reference model (set of stop conditions that hold at each failure)",
         "Model-based: an independent model computes at every failed attempt which stop conditions hold and whether the budget refuses; the trace must retry exactly when none holds, spend exactly one token, and report a reason that holds.",
@@ -43,7 +44,7 @@ CHECKS.update({
         "Generated strategy tables/signatures/return values (NaN, inf, negative, huge, above remaining); oracle recomputes the applied delay from the property statement and follows it through every observer.",
         E1_NOTE, "DESIGN.md §3 C05"),
     "C11": _std("exploration", "Hypothesis-generated cases through every execute entry point; RetryOutcome-vs-trace oracle",
-        "Generated configs/scripts/abort points/handler decisions through 12 execute entry points (incl. breaker and no-retry policies); every RetryOutcome field is checked against the trace; only documented exception kinds may escape.",
+        "Generated configs/scripts/abort points/handler decisions through 12 execute entry points (incl. breaker and no-retry policies); every RetryOutcome field is checked against the trace; only documented exception kinds may escape. A second stream uses the real clock with attempt timeouts that really fire (timing-independent oracle: attempts == invocations).",
         E1_NOTE + "; ABORTED outcomes are allowed to describe the last failure the loop recorded (abort_if is polled before a failure is recorded)", "DESIGN.md §3 C11"),
     "C13": _std("fault_enumeration", "Generated + exhaustively enumerated first-True poll index and cancellation points; poll-placement grammar oracle",
         "abort_if turning True at every poll index of fixed runs (enumerated) and of generated runs; AbortRetryError / KeyboardInterrupt / SystemExit / CancelledError raised by the operation at attempt k; oracle: poll before every attempt and sleep, nothing after True, same exception object out, never classified.",
@@ -67,13 +68,13 @@ CHECKS.update({
         "For every generated case each hook invocation is faulted in turn (and 'always'), with exception types rotating over 9 Exception subclasses; the observable trace must equal the silent-hook trace, including the other sink, the timeline, breaker and budget calls.",
         E1_NOTE, "DESIGN.md §3 C15"),
     "C06": _std("exploration", "Model-based history generation (Hypothesis) + exhaustive short histories against an independent reference breaker model",
-        "Generated breaker configurations and operation histories with symbolic boundary advances (failure aged to exactly window_s, recovery boundary); after every operation return value and state must equal an independent model; all histories up to length 5/6 over an 8-letter alphabet are enumerated for 3 configurations.",
+        "Generated breaker configurations (incl. the caller's trip_on set shared with another breaker and edited afterwards, thresholds up to 100) and operation histories with bursts and symbolic boundary advances (failure aged to exactly window_s overall / per class, recovery boundary); after every operation return value and state must equal an independent model; all histories up to length 5/6 over an 8-letter alphabet are enumerated for 3 configurations.",
         "the breaker reads time through time.monotonic (default clock) routed to a virtual clock; times on the exact k/64 s grid", "DESIGN.md §3 C06"),
     "C07": _std("exploration", "Model-based histories at component and policy level + generated interleavings of stepped coroutines (harness-owned schedule)",
         "Three streams: component histories vs reference model; sequences of policy calls through mixed entry points sharing a real breaker with direct operations and exact-timeout clock advances; 2-4 AsyncPolicy calls stepped under generated interleavings with the invariant 'at most one admitted probe outstanding' and 'a call never admitted does not record'.",
         "straggler records are not flagged (the breaker API has no call identity); schedules are generated, not exhaustive", "DESIGN.md §3 C07"),
     "C10": _std("exploration", "Model-based history generation + exhaustive short histories for Budget; generated multi-policy runs sharing one budget vs window model",
-        "Generated consume/remaining/advance histories with boundary ages against an independent window model plus the sliding-window bound; all histories up to length 6/7 enumerated for 4 configurations; 2-3 policies (sync and async) sharing a pre-aged budget, every consume result and every retry/budget_exhausted event checked against the model.",
+        "Generated consume/remaining/advance histories (sizes 0..5 and 64..130, bulk costs, run-time changes of max_retries) with boundary ages against an independent window model plus the sliding-window bound; all histories up to length 6/7 enumerated for 4 configurations; 2-3 policies (sync and async) sharing a pre-aged budget, every consume result and every retry/budget_exhausted event checked against the model.",
         "Budget reads time.monotonic through the dispatcher; times on the exact k/64 s grid", "DESIGN.md §3 C10"),
     "C19": _std("exploration", "Hypothesis-generated hostile exception objects + exhaustive integer and SQLSTATE ranges against an independent table/precedence model; metamorphic renaming for strict",
         "Generated exception types/attribute values/args (directed so that the attribute each classifier reads is present) checked for totality and against a table model written from the docstrings; every int in [-50,1100] in every position and every 5-char SQLSTATE over a 10-letter alphabet are enumerated; optional-library classifiers compared with default_classifier with their library made unimportable.",
@@ -82,7 +83,7 @@ CHECKS.update({
         "Generated Retry-After values (digit strings of any length, signs, whitespace, dates in five formats, garbage, non-strings) in 11 container shapes; every digit-string length up to 600/5000 enumerated; coverage-guided byte-level fuzzing of the header text from seeded and empty corpora with the same oracle; policies using http_retry_after_classifier + retry_after_or checked for min(rem,n) <= wait <= min(rem,n+jitter).",
         "what is a date is delegated to email.utils.parsedate_to_datetime; date hints are bracketed by real clock readings; Atheris campaigns are pinned only approximately by -seed/-runs (the saved input is the reproducible unit)", "DESIGN.md §3 C20"),
     "C17": _std("exploration", "Harness-owned thread scheduler: full depth-first enumeration of all schedules for 2-thread programs, pre-emption-bounded enumeration for generated larger programs; linearizability oracle",
-        "The schedule is a generated/enumerated input: real threads run one at a time with every source line of circuit.py/budget.py as a pre-emption point and a cooperative lock. All schedules of every 2-thread/1-operation program from every initial state are enumerated completely; Hypothesis-generated 2-3 thread programs are explored under all schedules with <= 2/3 pre-emptions. Each outcome must equal one produced by some sequential order; no deadlock.",
+        "The schedule is a generated/enumerated input: real threads run one at a time with every source line of circuit.py/budget.py as a pre-emption point and a cooperative lock. All schedules of every 2-thread/1-operation program from every initial state (two breaker configurations, one budget) are enumerated completely; Hypothesis-generated 2-3 thread programs are explored under all schedules with <= 2/3 pre-emptions. Each outcome must equal one produced by some sequential order; no deadlock. A third stream lets the clock advance between the threads' clock reads and checks the no-over-grant safety bound.",
         "source-line pre-emption granularity (C-level calls atomic); constant clock during the concurrent episode; 2-3 threads, 1-3 operations each", "DESIGN.md §3 C17"),
 })
 
